@@ -349,7 +349,7 @@ def run_one(scenario, strategy, sql=False, lines=None, max_steps=20000, shims=No
 
 
 def explore(scenario, strategy="pct", max_preemptions=2, n=100, seed=0, sql=False, lines=None, max_steps=20000,
-            shims=None, max_schedules=200000, time_budget=None, depth=None, on_step_factory=None, keep_all=False):
+            shims=None, max_schedules=200000, time_budget=None, depth=None, on_step_factory=None, keep_all=False, replay_choices=None):
     """Run many schedules of `scenario`. Returns aggregate dict; results holds only schedules with
     a truthy finish() output, a deadlock, an error or a stuck actor."""
     t0 = _real_time.monotonic()
@@ -374,7 +374,11 @@ def explore(scenario, strategy="pct", max_preemptions=2, n=100, seed=0, sql=Fals
     def over_budget():
         return time_budget is not None and _real_time.monotonic() - t0 > time_budget
 
-    if strategy == "dfs":
+    if strategy == "replay":
+        res = run_one(scenario, Replay(list(replay_choices or [])), sql=sql, lines=lines, max_steps=max_steps, shims=shims,
+                      on_step=on_step_factory() if on_step_factory else None)
+        record(res)
+    elif strategy == "dfs":
         stack = [[]]
         seen_prefix = set()
         while stack:
